@@ -3,7 +3,8 @@
 #ifdef __cplusplus
 extern "C" {
 #endif
-extern int gh_lc_phase;
+extern int gh_lc_phase, gh_lc_phase_a1;
+extern unsigned long gh_vec_cap;   /* capacity of vectors the code fills itself (arbitrary) */
 /* output stream ghost state: data handed to the stream is first "pending" (buffered); a write to
    the destination happens on flush()/close() or whenever the buffer spills, and may fail */
 extern int g_pending;     /* some emitted data is still buffered in the stream */
